@@ -220,7 +220,7 @@ func reader_scan_Object(r *Decoder, ectx evaluationContext, r0 cursorio.DecodedR
 			} else if r1.Rune < '0' || r1.Rune > '9' {
 				r.buf.BacktrackRunes(r0, r1)
 
-				return readerStack{}, grammar.R_object.Err(r.newOffsetError(cursorioutil.UnexpectedRuneError{Rune: r0.Rune}, cursorio.DecodedRunes{}, r0.AsDecodedRunes()))
+				return readerStack{}, grammar.R_object.Err(r.newOffsetError(cursorioutil.UnexpectedRuneError{Rune: r0.Rune}, cursorio.DecodedRunes{}, cursorio.DecodedRunes{}))
 			}
 
 			r.buf.BacktrackRunes(r1)
